@@ -524,3 +524,70 @@ Proof.
   - rewrite Ea. cbn [world0 w_store] in Ka. apply store0_cleared in Ka as (Nts & Nsn & Ntg).
     eapply cycle_tail_replay; eauto. apply incl_refl.
 Qed.
+
+(* ---------------------------------------------------------------------------------------- *)
+(* non-vacuity: consistent snapshots; shipped root 1, the source serves root 2 under 2.root.json and
+   again under 3.root.json (the walk stops there: equal version); targets delegates to role "a", which
+   lists a target and delegates to role "b"; the first client runs from a datastore with a corrupt
+   timestamp, an earlier time and a fault scheduled for an operation it never reaches *)
+Definition ex_roles : list (N * rolekeys) :=
+  [(0, {| rk_keyids := [0]; rk_threshold := 1 |}); (1, {| rk_keyids := [1]; rk_threshold := 1 |});
+   (2, {| rk_keyids := [2]; rk_threshold := 1 |}); (3, {| rk_keyids := [3]; rk_threshold := 1 |})].
+Definition ex_root (v : N) : root :=
+  {| r_version := v; r_expires := 100; r_cs := true; r_keys := [0; 1; 2; 3]; r_roles := ex_roles; r_sigs := [wk 0] |}.
+Definition ex_tname : tname := {| tn_raw := [120]; tn_resolved := [120]; tn_hexdigest := [] |}.
+Definition ex_b : targets := Targets 1 100 [] false [] [] [wk 8].
+Definition ex_a : targets :=
+  Targets 2 100 [(ex_tname, {| ti_len := 3; ti_digest := 9; ti_hex := [] |})] true [8]
+          [({| dh_name := [98]; dh_keyids := [8]; dh_threshold := 1; dh_paths := Paths [[98; 42]] |}, None)] [wk 7].
+Definition ex_targets : targets :=
+  Targets 3 100 [] true [7]
+          [({| dh_name := [97]; dh_keyids := [7]; dh_threshold := 1; dh_paths := Paths [[42]] |}, None)] [wk 2].
+Definition ex_meta (v : N) : meta := {| m_version := v; m_length := Some 10; m_hash := Some 1 |}.
+Definition ex_snap : snapshot :=
+  {| sn_version := 4; sn_expires := 100;
+     sn_meta := [(name_targets, ex_meta 3); (json_of [97], ex_meta 2); (json_of [98], ex_meta 1)]; sn_sigs := [wk 1] |}.
+Definition ex_ts : timestamp :=
+  {| ts_version := 5; ts_expires := 100; ts_meta := [(name_snapshot, ex_meta 4)]; ts_sigs := [wk 3] |}.
+Definition ex_srv : server :=
+  [(root_json 2, w_file (CRoot (ex_root 2))); (root_json 3, w_file (CRoot (ex_root 2)));
+   (name_timestamp, w_file (CTs ex_ts)); (versioned true 4 name_snapshot, w_file (CSnap ex_snap));
+   (versioned true 3 name_targets, w_file (CTargets ex_targets));
+   (role_filename true 2 [97], w_file (CTargets ex_a)); (role_filename true 1 [98], w_file (CTargets ex_b));
+   ([120], w_file CJunk)].
+Definition ex_cfg : config :=
+  {| c_max_root_size := 100; c_max_targets_size := 100; c_max_timestamp_size := 100;
+     c_max_snapshot_size := 100; c_max_root_updates := 10; c_enforce := true; c_fuel := 20 |}.
+Definition ex_cyc : cyc :=
+  {| cy_cfg := ex_cfg; cy_shipped := CRoot (ex_root 1); cy_srv := ex_srv; cy_now := 50; cy_fault := Some (100%nat, 1) |}.
+Definition ex_store : store :=
+  {| st_root := None; st_ts := Some SCorrupt; st_snap := None; st_tgt := None; st_time := Some (SDoc 7%Z);
+     st_others := [[1]] |}.
+
+Example copy_loads_example :
+  exists rp w',
+    run_cycle fixed ex_cyc ex_store = (Ok rp, w')
+    /\ r_version (rp_root rp) = 2 /\ role_names (rp_targets rp) = [[97]; [98]]
+    /\ find_target ex_tname (rp_targets rp) <> None
+    /\ In (root_json 3) (map fst (cy_srv ex_cyc)) /\ ~ In (root_json 3) (cache_names rp true)
+    /\ length (cache_srv (cy_srv ex_cyc) (cache_names rp true)) = 6%nat
+    /\ length (cache_srv (cy_srv ex_cyc) (cache_names rp false)) = 5%nat
+    /\ (exists w'', run_cycle fixed (copy_cycle ex_cyc (cy_shipped ex_cyc) (cache_names rp true)) store0 = (Ok rp, w''))
+    /\ (exists w'', run_cycle fixed (copy_cycle ex_cyc (CRoot (rp_root rp)) (cache_names rp false)) store0 = (Ok rp, w'')).
+Proof.
+  eexists. eexists. split; [vm_compute; reflexivity|].
+  split; [reflexivity|]. split; [reflexivity|]. split; [vm_compute; discriminate|].
+  split; [vm_compute; tauto|]. split; [vm_compute; intuition discriminate|].
+  split; [vm_compute; reflexivity|]. split; [vm_compute; reflexivity|].
+  split; eexists; vm_compute; reflexivity.
+Qed.
+
+(* the same instance through the theorems *)
+Example copy_loads_example_thm :
+  exists rp w', run_cycle fixed ex_cyc ex_store = (Ok rp, w')
+    /\ (exists w'', run_cycle fixed (copy_cycle ex_cyc (cy_shipped ex_cyc) (cache_names rp true)) store0 = (Ok rp, w''))
+    /\ (exists w'', run_cycle fixed (copy_cycle ex_cyc (CRoot (rp_root rp)) (cache_names rp false)) store0 = (Ok rp, w'')).
+Proof.
+  destruct (run_cycle fixed ex_cyc ex_store) as [[rp|c a] w'] eqn:E; [|vm_compute in E; discriminate].
+  exists rp, w'. split; [reflexivity|]. split; [eapply copy_loads, E|eapply copy_loads_no_chain, E].
+Qed.
